@@ -139,6 +139,9 @@ func bombs(name string) [][]byte {
 func decoderInputs(r *hv.Rand, f *xw.Format, gen *xw.Format, nValues, mutPer, nRandom int) [][]byte {
 	var ins [][]byte
 	ins = append(ins, bombs(f.Name)...)
+	if gen.Corpus != nil {
+		ins = append(ins, gen.Corpus()...)
+	}
 	for k := 0; k < nValues; k++ {
 		v := gen.Gen(r)
 		o := xw.RunEnc(gen, v)
